@@ -533,8 +533,7 @@ def check(ctx):
         if msg is not None and 'will be ignored' in (py.try_fold(msg, m, '') or ''):
             r7.check(gsa.implies(c.cond, FAIL), '"annotations will be ignored" is followed by a failure return', rel, c.line,
                      'error says the annotations will be ignored but parsing continues')
-    n_fail = len(set(e.line for e in fails)) if len(set(e.line for e in fails)) >= 4 else len(fails)
-    r7.check(len(fails) >= 4, 'failure returns present', rel, pa.lineno, 'only %d failure returns' % len(fails))
+    r7.check(len(fails) >= 2, 'failure returns present', rel, pa.lineno, 'only %d failure returns' % len(fails))
     # the working container never aliases the caller's live annotations
     wk = [(v, st) for t, v, st in P.stores_in(pa) if isinstance(t, ast.Name) and t.id == 'parsed_annotations' and isinstance(st, ast.Assign)]
     for v, st in wk:
